@@ -4,6 +4,8 @@ import (
 	"bytes"
 	"crypto/md5"
 	"fmt"
+	"os"
+	"path/filepath"
 
 	"github.com/protomaps/go-pmtiles/pmtiles"
 )
@@ -78,6 +80,9 @@ func checkRootLeaves(es []Ent, root, leaves []byte, n int, gzipped bool) []strin
 func c05run(line string) (string, []string) {
 	t := newToks(line)
 	op := t.s()
+	if op == "cluster_root" {
+		return c05cluster(t.u(), t.n(), t.n() == 1)
+	}
 	k := t.n()
 	es := t.ents()
 	gzipped := op == "buildrl_gz" || op == "optdir_gz"
@@ -107,9 +112,66 @@ func c05run(line string) (string, []string) {
 	return fmt.Sprintf("ok %d %s %s", n, digest(root), digest(leaves)), viol
 }
 
+// nearBudgetList: n badly compressing entries in clustered layout (contiguous offsets) from a seed.
+func nearBudgetList(seed uint64, n int) []Ent {
+	rr := &rng{s: seed}
+	es := make([]Ent, n)
+	id, off := uint64(0), uint64(0)
+	for i := range es {
+		id += 1 + rr.u64n(1<<uint(1+rr.intn(20)))
+		l := uint32(1 + rr.intn(60))
+		es[i] = Ent{ID: id, Off: off, Len: l, Run: 1}
+		off += uint64(l)
+	}
+	return es
+}
+
+// cluster_root <seed> <n> <dedup>: an unclustered archive of n badly compressing entries goes through the real
+// writer (Cluster -> finalize); header and root of the written file must lie within the first 16384 bytes and
+// root + leaves must reproduce the entries.   -> ok (oracle only)
+func c05cluster(seed uint64, n int, dedup bool) (string, []string) {
+	es := nearBudgetList(seed, n)
+	total := es[n-1].Off + uint64(es[n-1].Len)
+	rr := &rng{s: seed ^ 0x5555}
+	data := rr.bytes(int(total))
+	// unclustered layout: reverse the order of the contents in the data section
+	un := make([]Ent, n)
+	udata := make([]byte, 0, total)
+	for i := n - 1; i >= 0; i-- {
+		un[i] = es[i]
+		un[i].Off = uint64(len(udata))
+		udata = append(udata, data[es[i].Off:es[i].Off+uint64(es[i].Len)]...)
+	}
+	a := buildArchive(rr, un, udata, archOpts{tree: treeOpts{depth: 1, fan: 4000, gzip: true, shorthand: true}, tileType: 2, tileComp: 1, meta: "{}", minZoom: 0, maxZoom: 31})
+	dir, _ := os.MkdirTemp("", "vh-c05")
+	defer os.RemoveAll(dir)
+	p := filepath.Join(dir, "a.pmtiles")
+	os.WriteFile(p, a.Bytes, 0o644)
+	so, se := os.Stdout, os.Stderr
+	os.Stdout, os.Stderr = devNull, devNull
+	err := pmtiles.Cluster(quietLogger, p, dedup)
+	os.Stdout, os.Stderr = so, se
+	if err != nil {
+		return "ok", []string{"cluster failed: " + err.Error()}
+	}
+	out, _ := os.ReadFile(p)
+	h, got, rerr := specReadArchive(out)
+	var viol []string
+	if rerr != nil {
+		viol = append(viol, "written archive unreadable: "+rerr.Error())
+	}
+	if h.RootOff+h.RootLen > 16384 {
+		viol = append(viol, fmt.Sprintf("header and root directory end at byte %d, beyond the first 16384 bytes (%d entries)", h.RootOff+h.RootLen, n))
+	}
+	if rerr == nil && len(got) != n {
+		viol = append(viol, fmt.Sprintf("written directories hold %d entries, expected %d", len(got), n))
+	}
+	return "ok", viol
+}
+
 func c05(r *rng, tier string, o *out) {
 	emit := func(line string, nt bool, tag string) {
-		impl, viol := c05run(line)
+		impl, viol := runCase("C05", line)
 		idx := o.emit(line, impl, nt)
 		o.count(tag)
 		for _, v := range viol {
@@ -180,6 +242,25 @@ func c05(r *rng, tier string, o *out) {
 			}
 		}
 		emit(fmt.Sprintf("optdir_gz %d %s", 16257, entsStr(es)), true, "optdir_gz_near_budget")
+	}
+	// (d) the real writer on lists whose flat gzip root is within a few bytes of the 16 KiB boundary
+	nd := 3
+	if tier == "thorough" {
+		nd = 40
+	}
+	for c := 0; c < nd; c++ {
+		seed := r.next()
+		want := 16257 - 40 + r.intn(200) // window around (16257, 16384]
+		lo, hi := 2000, 16000
+		for lo < hi {
+			mid := (lo + hi) / 2
+			if len(pmtiles.SerializeEntries(toImpl(nearBudgetList(seed, mid)), pmtiles.Gzip)) < want {
+				lo = mid + 1
+			} else {
+				hi = mid
+			}
+		}
+		emit(fmt.Sprintf("cluster_root %d %d %d", seed, lo, c%2), true, "cluster_root_near_budget")
 	}
 	_ = bytes.Equal
 }
